@@ -238,6 +238,11 @@ __CPROVER_decreases(OFF(e) - OFF(b))
 GV_ANCHOR(d, self->diag_ + (row - 1));
 //@ end
 
+/* ---- functions used only by the BOUNDED numeric check (loops unwound, no loop contracts) ---------------- */
+//@ entry Envelope_inverse
+GV_CANARY("Envelope_inverse entry");
+//@ end
+
 //@ harness
 void h_lowerSolve(void)
 {
@@ -311,5 +316,82 @@ void h_element_const(void)
   __CPROVER_assume(WF_ROW(&E, GV_MAX(i, j)));
   const Float *q = Envelope_element_const(&E, i, j);
   GV_CANARY("h_element_const end");
+}
+
+/* BOUNDED numeric check (C03 / C16): in-place LDL' and the sparse inverse on EXACTLY representable inputs.
+   N = L D L' is built from small integers (|l| <= 2, d in {1,2,4}) inside a symbolic profile of dimension GV_BDIM, so
+   every IEEE operation of cholDec/lowerSolve/diagonalSolve/inverse is exact and the oracle is ==:
+     (1) cholDec recovers L and D, defect 0;   (2) Z = inverse(chol) satisfies (Z N)(i,j) == [i==j] for all i,j,
+   where Z outside its profile is obtained from the recurrence's own symmetric accessor element(i,j) (NULL -> checked
+   only inside the profile: rows of Z N restricted to stored entries use the full N).                          */
+#ifndef GV_BDIM
+#define GV_BDIM 3
+#endif
+#ifndef GV_LEN2
+#define GV_LEN2 1
+#endif
+#ifndef GV_LEN3
+#define GV_LEN3 2
+#endif
+static Float gvb_get(const struct Envelope *E, Index i, Index j)   /* symmetric read; 0 outside the profile */
+{
+  if (i == j) return E->diag_[i - 1];
+  Index hi = i > j ? i : j, lo = i > j ? j : i;
+  long len = E->xenv_[hi + 1] - E->xenv_[hi];
+  if (hi - lo > len) return 0;
+  return *(E->xenv_[hi + 1] - (hi - lo));
+}
+void h_bounded_ldl_inverse(void)
+{
+  enum { D = GV_BDIM, ES = GV_LEN2 + (GV_BDIM >= 3 ? GV_LEN3 : 0) };
+  const Index len[5] = { 0, 0, GV_LEN2, GV_LEN3, 0 };      /* concrete row-band shape of this check (one check per shape) */
+  Float L[D + 1][D + 1], dg[D + 1], Nfull[D + 1][D + 1];
+  for (Index i = 1; i <= D; i++) {
+    int dsel; __CPROVER_assume(dsel >= 0 && dsel <= 2);
+    dg[i] = dsel == 0 ? 1.0 : dsel == 1 ? 2.0 : 4.0;
+    for (Index j = 1; j <= D; j++) {
+      int v; __CPROVER_assume(-2 <= v && v <= 2);
+      L[i][j] = (j == i) ? 1.0 : (j < i && i - j <= len[i]) ? (Float)v : 0.0;
+    }
+  }
+  for (Index i = 1; i <= D; i++)
+    for (Index j = 1; j <= D; j++) { Float s = 0; for (Index k = 1; k <= D; k++) s += L[i][k] * dg[k] * L[j][k]; Nfull[i][j] = s; }
+  struct Envelope E;
+  E.dim_ = D; E.defect_ = 0; E.gv_env_size = ES;
+  E.diag_ = malloc(D * sizeof(Float)); E.xenv_ = malloc((D + 2) * sizeof(Float *)); E.env_ = malloc(ES * sizeof(Float));
+  __CPROVER_assume(E.diag_ && E.xenv_ && E.env_);
+  Float *t = E.env_;
+  for (Index i = 1; i <= D; i++) { E.diag_[i - 1] = Nfull[i][i]; E.xenv_[i] = t; for (Index j = i - len[i]; j < i; j++) *t++ = Nfull[i][j]; }
+  E.xenv_[D + 1] = t;
+  Float tol = 1e-8;
+  Envelope_cholDec(&E, tol);
+  __CPROVER_assert(E.defect_ == 0, "bounded: regular L D L' input has defect 0");
+  for (Index i = 1; i <= D; i++) {
+    __CPROVER_assert(E.diag_[i - 1] == dg[i], "bounded: cholDec recovers D exactly");
+    for (Index j = i - len[i]; j < i; j++) __CPROVER_assert(gvb_get(&E, i, j) == L[i][j], "bounded: cholDec recovers L exactly");
+  }
+  struct Envelope Z; Z.dim_ = 0; Z.defect_ = 0; Z.diag_ = NULL; Z.env_ = NULL; Z.xenv_ = NULL; Z.gv_env_size = ES;
+  gv_exc = 0;
+  Envelope_inverse(&Z, &E);
+  __CPROVER_assert(Z.dim_ == D, "bounded: inverse has the dimension of the factor");
+  for (Index i = 1; i <= D; i++)
+    __CPROVER_assert(Z.xenv_[i + 1] - Z.xenv_[i] == len[i], "bounded: inverse has the profile of the factor");
+  /* Z is the inverse restricted to the profile.  The true inverse inv(N) = inv(L)' inv(D) inv(L) is computed here by the
+     textbook dense formulas (exact on this input class) and compared entry by entry on the stored profile. */
+  Float Li[D + 1][D + 1], Ninv[D + 1][D + 1];
+  for (Index i = 1; i <= D; i++)
+    for (Index j = 1; j <= D; j++) {
+      if (j > i) { Li[i][j] = 0; continue; }
+      if (j == i) { Li[i][j] = 1; continue; }
+      Float s = 0; for (Index k = j; k < i; k++) s -= L[i][k] * Li[k][j];
+      Li[i][j] = s;
+    }
+  for (Index i = 1; i <= D; i++)
+    for (Index j = 1; j <= D; j++) { Float s = 0; for (Index k = 1; k <= D; k++) s += Li[k][i] * Li[k][j] / dg[k]; Ninv[i][j] = s; }
+  for (Index i = 1; i <= D; i++) {
+    __CPROVER_assert(Z.diag_[i - 1] == Ninv[i][i], "bounded: diagonal of the sparse inverse equals inv(N) exactly");
+    for (Index j = i - len[i]; j < i; j++) __CPROVER_assert(gvb_get(&Z, i, j) == Ninv[i][j], "bounded: profile entry of the sparse inverse equals inv(N) exactly");
+  }
+  GV_CANARY("h_bounded_ldl_inverse end");
 }
 //@ end
